@@ -10,6 +10,8 @@ open Eru
 /-- representation invariant of a Go map: no duplicate keys -/
 def WF (m : IMap) : Prop := m.keys.Nodup
 
+instance (m : IMap) : Decidable (WF m) := by unfold WF; exact inferInstance
+
 theorem WF_nil : WF [] := by simp [WF, Plan.keys]
 
 theorem keys_cons (a : String) (b : Int) (m : IMap) : Plan.keys ((a, b) :: m) = a :: Plan.keys m := rfl
